@@ -16,6 +16,7 @@ import (
 type zzC15 struct {
 	nsProd, nsDev *corev1.Namespace
 	p1, p2        *corev1.Pod
+	p1L, p1O      *corev1.Pod // updates of p1: other labels under the same owner / same labels under another owner
 	npA, npB      *netv1.NetworkPolicy // two variants under one name
 	anpX, anpY    *apisv1a.AdminNetworkPolicy
 	anpZ          *apisv1a.AdminNetworkPolicy
@@ -23,7 +24,7 @@ type zzC15 struct {
 	banp          *apisv1a.BaselineAdminNetworkPolicy
 	// ghost state: what is currently in the engine
 	curNs   *corev1.Namespace
-	curP1   bool
+	curP1   *corev1.Pod
 	curP2   bool
 	curNP   *netv1.NetworkPolicy
 	curX    bool
@@ -45,6 +46,8 @@ func zzNewC15() *zzC15 {
 	u.nsDev = zzNsObj("ns1", map[string]string{"env": "dev"}).Namespace
 	u.p1 = zzPodObj("ns1", "p1", map[string]string{"app": "a"}, nil, "oa").Pod
 	u.p2 = zzPodObj("ns1", "p2", map[string]string{"app": "b"}, nil, "ob").Pod
+	u.p1L = zzPodObj("ns1", "p1", map[string]string{"app": "c"}, nil, "oa").Pod
+	u.p1O = zzPodObj("ns1", "p1", map[string]string{"app": "a"}, nil, "oz").Pod
 	pa, ea := zzPortVar("npA.p"), zzPortVar("npA.e")
 	vf_Assume(pa <= ea)
 	u.npA = zzNetpolObj("ns1", "np1", netv1.NetworkPolicySpec{
@@ -73,7 +76,7 @@ func zzNewC15() *zzC15 {
 	return u
 }
 
-const zzC15NumOps = 19
+const zzC15NumOps = 23
 
 // apply performs operation k on the engine and, if it succeeded, on the ghost state
 func (u *zzC15) apply(pe *PolicyEngine, k int) {
@@ -93,11 +96,11 @@ func (u *zzC15) apply(pe *PolicyEngine, k int) {
 		}
 	case 3:
 		if err = pe.InsertObject(u.p1); err == nil {
-			u.curP1 = true
+			u.curP1 = u.p1
 		}
 	case 4:
 		if err = pe.DeleteObject(u.p1); err == nil {
-			u.curP1 = false
+			u.curP1 = nil
 		}
 	case 5:
 		if err = pe.InsertObject(u.p2); err == nil {
@@ -153,6 +156,27 @@ func (u *zzC15) apply(pe *PolicyEngine, k int) {
 		if err = pe.DeleteObject(u.anpZ); err == nil {
 			u.curZ = false
 		}
+	case 19: // update of pod p1: other labels, same owner
+		if err = pe.InsertObject(u.p1L); err == nil {
+			u.curP1 = u.p1L
+		}
+	case 20: // update of pod p1: same labels, another owner
+		if err = pe.InsertObject(u.p1O); err == nil {
+			u.curP1 = u.p1O
+		}
+	case 21: // ClearResources: nothing is left
+		pe.ClearResources()
+		u.curNs, u.curP1, u.curP2, u.curNP, u.curX, u.curY, u.curZ, u.curBANP = nil, nil, false, nil, false, false, false, false
+	case 22: // SetResources = the InsertObject calls it documents (namespaces, policies, pods), stopping at the first error
+		err = pe.SetResources([]*netv1.NetworkPolicy{u.npB}, []*corev1.Pod{u.p1, u.p2}, []*corev1.Namespace{u.nsProd})
+		u.curNs = u.nsProd
+		if u.curNP == nil {
+			u.curNP = u.npB
+			u.curP1, u.curP2 = u.p1, true
+			vf_Assert(err == nil, "setresources-succeeds")
+		} else {
+			vf_Assert(err != nil, "setresources-duplicate-policy-error")
+		}
 	}
 }
 
@@ -162,8 +186,8 @@ func (u *zzC15) objects() []parser.K8sObject {
 	if u.curNs != nil {
 		objs = append(objs, parser.K8sObject{Kind: parser.Namespace, Namespace: u.curNs})
 	}
-	if u.curP1 {
-		objs = append(objs, parser.K8sObject{Kind: parser.Pod, Pod: u.p1})
+	if u.curP1 != nil {
+		objs = append(objs, parser.K8sObject{Kind: parser.Pod, Pod: u.curP1})
 	}
 	if u.curP2 {
 		objs = append(objs, parser.K8sObject{Kind: parser.Pod, Pod: u.p2})
@@ -236,5 +260,89 @@ func ZZ_C15_History() {
 	vf_Assert((err == nil) == (err2 == nil), "history-independent-error")
 	if err == nil && err2 == nil {
 		vf_Assert(vf_Iff(got, want), "history-independent-answer")
+	}
+}
+
+// C15: a verdict cached for one query never answers a different query (other direction, protocol, port or
+// protocol spelling) — the cache key separates everything the verdict depends on.
+func ZZ_C15_CacheKeys() {
+	u := zzNewC15()
+	pe := NewPolicyEngine()
+	u.apply(pe, 0)
+	u.apply(pe, 3)
+	u.apply(pe, 5)
+	switch vf_Choose("base.np", 3) {
+	case 1:
+		u.apply(pe, 7)
+	case 2:
+		u.apply(pe, 8)
+	}
+	if vf_Choose("base.anps", 2) == 1 {
+		u.apply(pe, 10)
+		u.apply(pe, 12)
+		u.apply(pe, 17)
+	}
+	qs := [][4]string{{"ns1/p2", "ns1/p1", "TCP", "80"}, {"ns1/p1", "ns1/p2", "TCP", "80"}, {"ns1/p2", "ns1/p1", "UDP", "80"},
+		{"ns1/p2", "ns1/p1", "TCP", "81"}, {"ns1/p2", "ns1/p1", "tcp", "80"}, {"ns1/p2", "ns1/p1", "TCP", "8"}}
+	a := vf_Choose("first", len(qs))
+	_, _ = pe.CheckIfAllowed(qs[a][0], qs[a][1], qs[a][2], qs[a][3])
+	b := vf_Choose("second", len(qs))
+	got, err := pe.CheckIfAllowed(qs[b][0], qs[b][1], qs[b][2], qs[b][3])
+	fresh, ferr := NewPolicyEngineWithObjects(u.objects())
+	vf_Assert(ferr == nil, "fresh-engine-built")
+	want, err2 := fresh.CheckIfAllowed(qs[b][0], qs[b][1], qs[b][2], qs[b][3])
+	vf_Observe("queries", fmt.Sprintf("%d,%d", a, b))
+	vf_Assert((err == nil) == (err2 == nil), "cachekeys-error")
+	if err == nil && err2 == nil {
+		vf_Assert(vf_Iff(got, want), "cachekeys-answer")
+	}
+}
+
+// C15: updates that keep a pod's owner and labels (the cache key) but change what its verdicts depend on — the number
+// behind a named container port — as a Pod update and as a Deployment update; the policy allows the named port only.
+func ZZ_C15_PortUpdate() {
+	c1, c2 := zzPortVar("c1"), zzPortVar("c2")
+	ns := zzNsObj("ns1", map[string]string{"env": "prod"}).Namespace
+	p2 := zzPodObj("ns1", "p2", map[string]string{"app": "b"}, nil, "ob").Pod
+	np := zzNetpolObj("ns1", "np1", netv1.NetworkPolicySpec{
+		PodSelector: metav1.LabelSelector{MatchLabels: map[string]string{"app": "a"}},
+		Ingress: []netv1.NetworkPolicyIngressRule{{From: []netv1.NetworkPolicyPeer{{PodSelector: zzSel("app", "b")}},
+			Ports: []netv1.NetworkPolicyPort{zzPortName(corev1.ProtocolTCP, "http")}}},
+	}).NetworkPolicy
+	mk := func(c int32) []corev1.ContainerPort {
+		return []corev1.ContainerPort{{Name: "http", ContainerPort: c, Protocol: corev1.ProtocolTCP}}
+	}
+	pe := NewPolicyEngine()
+	var cur []parser.K8sObject
+	dst := "ns1/p1"
+	ok := pe.InsertObject(ns) == nil && pe.InsertObject(p2) == nil && pe.InsertObject(np) == nil
+	asDeploy := vf_Choose("kind", 2) == 1
+	if asDeploy {
+		d1, d2 := zzDeployObj("ns1", "p1", map[string]string{"app": "a"}, mk(c1)), zzDeployObj("ns1", "p1", map[string]string{"app": "a"}, mk(c2))
+		ok = ok && pe.InsertObject(d1.Deployment) == nil
+		for name := range pe.podsMap {
+			if name != "ns1/p2" {
+				dst = name // the pod generated for the deployment
+			}
+		}
+		_, _ = pe.CheckIfAllowed("ns1/p2", dst, "TCP", "80")
+		ok = ok && pe.InsertObject(d2.Deployment) == nil
+		cur = []parser.K8sObject{{Kind: parser.Namespace, Namespace: ns}, {Kind: parser.Pod, Pod: p2}, {Kind: parser.NetworkPolicy, NetworkPolicy: np}, d2}
+	} else {
+		a1, a2 := zzPodObj("ns1", "p1", map[string]string{"app": "a"}, mk(c1), "oa"), zzPodObj("ns1", "p1", map[string]string{"app": "a"}, mk(c2), "oa")
+		ok = ok && pe.InsertObject(a1.Pod) == nil
+		_, _ = pe.CheckIfAllowed("ns1/p2", dst, "TCP", "80")
+		ok = ok && pe.InsertObject(a2.Pod) == nil
+		cur = []parser.K8sObject{{Kind: parser.Namespace, Namespace: ns}, {Kind: parser.Pod, Pod: p2}, {Kind: parser.NetworkPolicy, NetworkPolicy: np}, a2}
+	}
+	vf_Assert(ok, "portupdate-inserts-succeed")
+	got, err := pe.CheckIfAllowed("ns1/p2", dst, "TCP", "80")
+	fresh, ferr := NewPolicyEngineWithObjects(cur)
+	vf_Assert(ferr == nil, "fresh-engine-built")
+	want, err2 := fresh.CheckIfAllowed("ns1/p2", dst, "TCP", "80")
+	vf_Observe("dst", dst)
+	vf_Assert(err == nil && err2 == nil, "portupdate-no-error")
+	if err == nil && err2 == nil {
+		vf_Assert(vf_Iff(got, want), "portupdate-history-independent-answer")
 	}
 }
